@@ -329,3 +329,38 @@ def canon_cmp_text(text):
     if isinstance(t, ast.Compare) and len(t.ops) == 1 and type(t.ops[0]) in (ast.Gt, ast.GtE):
         t = ast.Compare(left=t.comparators[0], ops=[_FLIP[type(t.ops[0])]()], comparators=[t.left])
     return 'not ' * neg + norm_text(t)
+
+
+def stores_through_helpers(methods, fnode, field, depth=3, bind=None):
+    """Value expressions stored into `self.<field>` by a method, following calls of private helpers of the same class
+    (`self._x(args)` statements): a stored parameter of the helper is replaced by the argument expression of the call.
+    `methods`: name -> FunctionDef.  -> list of (value AST, FunctionDef where the store is written)."""
+    bind = bind or {}
+    out = []
+
+    def subst(e):
+        class T(ast.NodeTransformer):
+            def visit_Name(s, n):
+                if isinstance(n.ctx, ast.Load) and n.id in bind:
+                    return copy.deepcopy(bind[n.id])
+                return n
+        return T().visit(copy.deepcopy(e))
+    for n in ast.walk(fnode):
+        if isinstance(n, ast.Assign):
+            for t in n.targets:
+                if isinstance(t, ast.Attribute) and t.attr == field and isinstance(t.value, ast.Name) and t.value.id == 'self':
+                    out.append((subst(n.value), fnode))
+        elif isinstance(n, ast.Call) and isinstance(n.func, ast.Attribute) and isinstance(n.func.value, ast.Name) and n.func.value.id == 'self' \
+                and n.func.attr in methods and n.func.attr.startswith('_') and not n.func.attr.startswith('__') and depth > 0:
+            callee = methods[n.func.attr]
+            if callee is fnode:
+                continue
+            params = [a.arg for a in callee.args.args][1:]
+            b2 = {}
+            for p_, a_ in zip(params, n.args):
+                b2[p_] = subst(a_)
+            for k in n.keywords:
+                if k.arg:
+                    b2[k.arg] = subst(k.value)
+            out.extend(stores_through_helpers(methods, callee, field, depth - 1, b2))
+    return out
